@@ -74,6 +74,12 @@ func (db *DB) VerifWaitMarks(read, commit uint64) bool {
 	return false
 }
 
+// VerifSyncMarks returns after both watermarks handled every mark sent so far
+func (db *DB) VerifSyncMarks() {
+	db.oracle.readMark.VerifSync()
+	db.oracle.commitMark.VerifSync()
+}
+
 // VerifImmutables number of immutable memtables which are still visible to readers
 func (db *DB) VerifImmutables() int {
 	db.mu.RLock()
